@@ -130,7 +130,18 @@ pub struct ConvCase {
 }
 
 fn conv_case() -> BoxedStrategy<ConvCase> {
-    (unit(), turns_val()).prop_map(|(u, t)| ConvCase { unit: u, x: X(in_unit(u, t)) }).boxed()
+    // magnitudes up to the end of the f32 range (and down to the subnormals): conversions must not overflow or lose the
+    // value while the converted magnitude is itself representable
+    let extreme = prop_oneof![
+        3 => signed(log_uniform(7.0, 38.5)),
+        1 => signed(log_uniform(-44.0, -7.0)),
+        1 => prop_oneof![Just(f32::MAX), Just(f32::MIN), Just(f32::MIN_POSITIVE), Just(1e-45f32)],
+    ];
+    prop_oneof![
+        5 => (unit(), turns_val()).prop_map(|(u, t)| ConvCase { unit: u, x: X(in_unit(u, t)) }),
+        1 => (unit(), extreme).prop_map(|(u, x)| ConvCase { unit: u, x: X(x) }),
+    ]
+    .boxed()
 }
 
 #[derive(Clone, Debug, Hash, Serialize, Deserialize)]
@@ -374,8 +385,26 @@ pub fn check_convert(c: &ConvCase, obs: &mut Obs) -> Check {
     let a = mk(c.unit, x);
     let nt = angle_classes(c.unit, x, obs);
     let t = x as f64 / per_turn(c.unit);
+    let fmax = f32::MAX as f64 * (1.0 - 1e-6);
+    if (t * TAU64).abs() > fmax {
+        obs.excluded("convert: the angle's magnitude in radians (the stored representation) exceeds f32::MAX");
+        return Ok(());
+    }
+    obs.class(if (t * TAU64).abs() > 1e30 {
+        "convert:|a| > 1e30 rad"
+    } else if (t * TAU64).abs() > 1e8 {
+        "convert:|a| in 1e8..1e30 rad"
+    } else if x != 0.0 && (t * TAU64).abs() < 1e-30 {
+        "convert:|a| < 1e-30 rad"
+    } else {
+        "convert:|a| ordinary"
+    });
     for v in 0..3u8 {
         let want = t * per_turn(v);
+        if want.abs() > fmax {
+            obs.excluded("convert: the value in the target unit exceeds f32::MAX (overflow to infinity accepted)");
+            continue;
+        }
         let got = get(v, a) as f64;
         let tol = TOL_CONV_REL * want.abs() + 1e-37;
         if want != 0.0 && want.abs() > 1e-30 {
@@ -447,6 +476,16 @@ pub fn check_wrap(c: &WrapCase, obs: &mut Obs) -> Check {
     let wf = w as f64;
     if wf == h0 {
         obs.class("result == hi (closed by rounding)");
+        // "closed at the upper end only by rounding": the exactly wrapped value must then be within f32 rounding of hi
+        // (the roundings of a - lo and of lo + rem are each below an ulp of the largest magnitude involved)
+        let exact = l0 + (a0 - l0).rem_euclid(width);
+        let slack = 4.0 * (f32::EPSILON as f64) * (a0.abs() + l0.abs() + h0.abs());
+        ensure!(
+            h0 - exact <= slack,
+            "wrap-returns-upper-bound",
+            "wrap({a0:?}, {l0:?}, {h0:?}) [rad] returned the upper bound itself although the exactly wrapped angle is {exact:?}, {:.3e} below it (rounding accounts for at most {slack:.3e})",
+            h0 - exact
+        );
     }
     if wf == l0 {
         obs.class("result == lo");
@@ -568,6 +607,10 @@ pub fn check_trig(c: &ConvCase, obs: &mut Obs) -> Check {
     let x = c.x.0;
     ensure!(x.is_finite(), "bad-case", "non-finite input");
     let a = mk(c.unit, x);
+    if !a.to_rads().is_finite() {
+        obs.excluded("trig: the angle's magnitude in radians (the stored representation) exceeds f32::MAX");
+        return Ok(());
+    }
     let nt = angle_classes(c.unit, x, obs);
     let (s, co) = a.sin_cos();
     let (s1, c1) = (a.sin(), a.cos());
